@@ -65,10 +65,30 @@ func genPK(r *rand.Rand, depth int) *node {
 		return &node{kind: 'L', leaf: r.Intn(nLeaf)}
 	}
 	n := &node{kind: 'M'}
-	for i := 0; i < 2+r.Intn(3); i++ {
+	kids := 2 + r.Intn(3)
+	if r.Intn(10) == 0 {
+		kids = r.Intn(2) // degenerate keys that only a decoder can produce: no component, or a single one
+	}
+	for i := 0; i < kids; i++ {
 		n.kids = append(n.kids, genPK(r, depth-1))
 	}
 	return n
+}
+
+// hasEmptyMulti: a multisignature key without components somewhere in the tree (it verifies nothing)
+func hasEmptyMulti(k *node) bool {
+	if k.kind == 'L' {
+		return false
+	}
+	if len(k.kids) == 0 {
+		return true
+	}
+	for _, c := range k.kids {
+		if hasEmptyMulti(c) {
+			return true
+		}
+	}
+	return false
 }
 
 func signTree(k *node, msg int) *node {
@@ -324,7 +344,10 @@ func (f *Fam) Exec(op string) (obs string, fails []common.Failure) {
 		sig := buildSig(sgT, nil)
 		ok := pk.VerifyBytes(msgBytes(m), sig)
 		// oracle: verifies iff the signature tree is exactly the positional signing of the key tree
-		want := signTree(pkT, m).String() == sgT.String()
+		want := signTree(pkT, m).String() == sgT.String() && !hasEmptyMulti(pkT)
+		if ok && pk.VerifyBytes(msgBytes(m+1), sig) {
+			fail("binds-message", "C19:verifies-other-message", fmt.Sprintf("%s: the signature verifies under the key for message %d and for message %d as well", op, m, m+1))
+		}
 		if ok != want {
 			fail("multisig-iff", "C19:multisig-verify", fmt.Sprintf("%s: VerifyBytes=%v, every key signed in its own position=%v", op, ok, want))
 		}
